@@ -312,6 +312,16 @@ func (r *replicateChannelManager) StartReadCollection(ctx context.Context, db *m
 		return nil
 	}
 
+	// the same collection may be notified more than once, like it's in the collection list and the watch event
+	// or its meta is updated, it has no further effect
+	r.collectionLock.RLock()
+	_, isReplicating := r.replicateCollections[info.ID]
+	r.collectionLock.RUnlock()
+	if isReplicating {
+		log.Info("the collection is already replicated", zap.String("collection_name", info.Schema.GetName()), zap.Int64("collection_id", info.ID))
+		return nil
+	}
+
 	var targetInfo *model.CollectionInfo
 	var err error
 	if r.downstream == "milvus" {
